@@ -16,7 +16,10 @@ META = dict(
                "C07_others_unaffected are proved for any stack, any hook functions, any exception class. The model is tied "
                "to /repo on every run (1-6 concurrent messages through the real receiver.callback, global log = "
                "interleaving of the model's sequences, compared inside Coq with set_result's id, is_err, value, "
-               "exception class and labels); a Python oracle re-derives the expected stored result from the scenario.",
+               "exception class and labels); a Python oracle re-derives the expected stored result from the scenario. In a fifth "
+               "of the cases the broker gets its result backend (also middlewares, formatter, tasks) only AFTER the Receiver was "
+               "constructed (assignment, with_* builders, WORKER_STARTUP handler) and the backend may be replaced mid-run: the "
+               "result must reach the backend that is the broker's when set_result is called.",
     level_note="Known finding sync_generator_exit (D10): a SYNC function raising GeneratorExit - the theorems exclude exactly "
                "that region (wf_recv: sync_genexit c = false) and C07_one_save_refuted_sync_genexit exhibits it. The statement "
                "claims timeout enforcement for async functions only; for sync functions wait_for gives up but the thread "
